@@ -995,6 +995,21 @@ impl Rt {
                         location: use_item.location.clone(),
                     })?;
             }
+            if !self
+                .type_checker
+                .type_info
+                .scope_graph
+                .declarations
+                .contains_key(&ResolvedName {
+                    scope: new_scope,
+                    ident: last.into(),
+                })
+            {
+                return Err(RegistrationError {
+                    message: format!("Could not find item {}", last),
+                    location: use_item.location.clone(),
+                });
+            }
             self.type_checker
                 .declare_runtime_import(
                     scope,
